@@ -277,6 +277,30 @@ func ens_WritePacket_scs(v *Protocol, pkt Packet, err error) bool {
 //@ ensures (*Protocol).WritePacket C04.registered-after
 func ens_WritePacket_registered(v *Protocol, pkt Packet, err error) bool { return err != nil || spec_registered(v, pkt) }
 
+// writing a packet never UNregisters: a request with this packet's transaction id that was outstanding at entry is
+// still outstanding afterwards, also when the write failed (the table is keyed by id: an earlier request with the same
+// id may still be waiting for its response)
+func spec_tidOf(pkt Packet) amf0.Number {
+	switch p := pkt.(type) {
+	case *ConnectAppPacket:
+		return p.TransactionID
+	case *CreateStreamPacket:
+		return p.TransactionID
+	}
+	return 0
+}
+func oldspec_outstanding(v *Protocol, tid amf0.Number) bool { _, ok := v.input.transactions[tid]; return ok }
+
+//@ ensures (*Protocol).WritePacket C04.write.never-unregisters
+func ens_WritePacket_keeps(v *Protocol, pkt Packet) bool {
+	tid := spec_tidOf(pkt)
+	if !oldspec_outstanding(v, tid) {
+		return true
+	}
+	_, ok := v.input.transactions[tid]
+	return ok
+}
+
 //@ ensures (*Protocol).WritePacket C04.balanced
 func ens_WritePacket_balanced(v *Protocol) bool { return !prim_held(&v.input.ltransactions) }
 
@@ -743,10 +767,22 @@ func spec_wfReader(v *Protocol) bool {
 //@ requires (*Protocol).ReadMessage
 func req_ReadMessage(v *Protocol) bool { return spec_wfReader(v) }
 
+func ghost_last_readMessagePayload() *Message { panic("ghost") } // what the latest readMessagePayload call returned
+
+//@ count-calls (*Protocol).ReadMessage readMessagePayload
 //@ invariant (*Protocol).ReadMessage 0
 func inv_ReadMessage(v *Protocol, m *Message, err error) bool {
 	return spec_wfReader(v) && err == nil && (m == nil || len(m.Payload) == int(m.payloadLength)) &&
-		(ghost_old_ioerr() != nil || ghost_ioerr() == nil) // no transport failure so far in this call
+		(ghost_old_ioerr() != nil || ghost_ioerr() == nil) && // no transport failure so far in this call
+		// m is what the latest payload step returned (nil: that chunk did not complete a message): a completed
+		// message is never put aside
+		(ghost_calls("readMessagePayload") == 0 && m == nil || ghost_calls("readMessagePayload") > 0 && m == ghost_last_readMessagePayload())
+}
+
+// the message returned is the one the last payload step completed (whatever its length, also 0): none is dropped
+//@ ensures (*Protocol).ReadMessage C02.read.first-completed C01.read.first-completed
+func ens_ReadMessage_first(m *Message, err error) bool {
+	return err != nil || ghost_calls("readMessagePayload") > 0 && m == ghost_last_readMessagePayload()
 }
 
 // a message is only ever returned complete (never truncated), and with a nil error
@@ -765,7 +801,7 @@ func ens_ReadMessage_err(err error) bool { return spec_errKeepsRoot(err) }
 //@ ensures (*Protocol).ReadMessage C02.read.state-preserved
 func ens_ReadMessage_state(v *Protocol, err error) bool { return err != nil || spec_wfReader(v) }
 
-//@ assigns (*Protocol).ReadMessage v.input.chunks[*], any(chunkStream), any(Message), any(settings), ghost.rd(v.r), ghost.ioerr
+//@ assigns (*Protocol).ReadMessage v.input.chunks[*], any(chunkStream), any(Message), any(settings), ghost.rd(v.r), ghost.ioerr, ghost.calls
 
 // the peer's Set Chunk Size (5.4.1) takes effect on the reader as soon as the message has arrived
 //@ requires (*Protocol).onMessageArrivated
